@@ -36,10 +36,11 @@ type sessRec struct {
 }
 
 type connRec struct {
-	sc      *gortsplib.ServerConn
-	port    int
-	closed  bool
-	claimed bool // a client connection of the harness was matched with it
+	sc       *gortsplib.ServerConn
+	port     int
+	closed   bool
+	closeErr string
+	claimed  bool // a client connection of the harness was matched with it
 }
 
 // core is the state shared by the handler callbacks of one server instance.
@@ -143,6 +144,9 @@ func (h hBase) OnConnClose(ctx *gortsplib.ServerHandlerOnConnCloseCtx) {
 	h.c.mu.Lock()
 	if r, ok := h.c.byConn[ctx.Conn]; ok {
 		r.closed = true
+		if ctx.Error != nil {
+			r.closeErr = ctx.Error.Error()
+		}
 		delete(h.c.byConn, ctx.Conn)
 	}
 	h.c.notify()
